@@ -1338,7 +1338,8 @@ Hread(int32 access_id, int32 length, void *data)
 
     /* length == 0 means to read to end of element, */
     /* if read length exceeds length of elt, read till end of elt */
-    if (length == 0 || length + access_rec->posn > data_len)
+    /* (compared without forming length + posn, which overflows int32 for a length near INT32_MAX) */
+    if (length == 0 || length > data_len - access_rec->posn)
         length = data_len - access_rec->posn;
     /* Hseek allows a position beyond the end of an appendable element: nothing to read there */
     if (length < 0)
